@@ -494,7 +494,7 @@ func runC05(c *Ctx) {
 	}
 }
 
-func init() { c05Extra = func(c *Ctx) { c05History(c); c05HistoryPassive(c) } }
+func init() { c05Extra = func(c *Ctx) { c05History(c); c05HistoryPassive(c); c05T7Dwell(c) } }
 
 var c05Extra func(*Ctx)
 
